@@ -92,7 +92,7 @@ def _d(seed, label):
     return int.from_bytes(hashlib.sha256(b"c19/%d/%s" % (seed, label.encode())).digest(), "big") % (M.N - 2) + 1
 
 
-OPS = ["sm2_keygen", "sm2_sign", "sm2_sign_ctx", "sm2_decrypt", "sm2_decrypt_bad", "sm2_ecdh", "sm2_import_der", "sm2_import_bad", "sm2_import_mismatch", "pem_key_damaged", "pem_key_damaged", "sm4_stream_dec", "sm4_stream_dec", "sm4_stream_dec", "sm4_stream_dec",
+OPS = ["sm2_keygen", "sm2_sign", "sm2_sign_ctx", "sm2_sign_ctx_long", "sm2_sign_ctx_long", "sm2_encrypt_ctx_long", "sm2_decrypt", "sm2_decrypt_bad", "sm2_ecdh", "sm2_import_der", "sm2_import_bad", "sm2_import_mismatch", "pem_key_damaged", "pem_key_damaged", "sm4_stream_dec", "sm4_stream_dec", "sm4_stream_dec", "sm4_stream_dec",
        "cms_open_0", "cms_open_1", "cms_open_2", "cms_open_3", "cms_open_4", "cms_open_5", "cms_open_6", "cms_open_6", "cms_open_7", "tls_ctx_keys", "tls_ctx_keys", "hex_key_bad", "tlcp_cke_badlen", "tlcp_cke_badlen",
        "pkcs8_open", "pkcs8_wrong_password", "sm9_key_open", "sm9_key_open_wrong_password", "sm9_key_open_wrong_password", "sm9_key_open_damaged", "sm9_key_open_damaged", "sm9_sign", "sm9_decrypt", "sm9_keygen",
        "hs_tlcp", "hs_tls12", "hs_tls13", "hs_tlcp_mutual", "hs_tls12_mutual", "hs_tls13_mutual",
@@ -257,7 +257,7 @@ def _handshake(ctx, proto, mutual, defect, seed, secrets):
         s.finish()
 
 
-@P.sub("ops", case_s, quick=720, thorough=26000, chunk=40)
+@P.sub("ops", case_s, quick=760, thorough=26000, chunk=40)
 def ops(case, ctx):
     """one catalogue operation with fd 1/2 captured; output scanned for every known secret"""
     l = lib(ctx.variant)
@@ -298,6 +298,38 @@ def ops(case, ctx):
                     l.sm2_sign_update(c, Buf.of(msg), len(msg))
                     out = Buf(72); ol = ctypes.c_size_t(0)
                     l.sm2_sign_finish(c, out, ctypes.byref(ol))
+                elif op in ("sm2_sign_ctx_long", "sm2_encrypt_ctx_long"):
+                    # one long-lived context: enough operations to use up the pre-computed nonce pairs (32 signing, 8 encryption pairs)
+                    # and have them renewed once or several times
+                    sign = op == "sm2_sign_ctx_long"
+                    reps = (1, 31, 32, 33, 34, 40, 64, 65, 66, 97)[case["n"] % 10] if sign else (1, 7, 8, 9, 10, 16, 17, 24, 25, 33)[case["n"] % 10]
+                    c = obj("SM2_SIGN_CTX" if sign else "SM2_ENC_CTX")
+                    if sign:
+                        l.sm2_sign_init(c, key, Buf.of(M.DEFAULT_ID), 16)
+                    else:
+                        l.sm2_encrypt_init(c)
+                        secrets["plaintext"] = msg[:min(len(msg), 200)] if len(msg) >= 16 else msg.ljust(16, b"\x5a")
+                    for i in range(reps):
+                        if i:
+                            (l.sm2_sign_reset if sign else l.sm2_encrypt_reset)(c)
+                        if sign:
+                            l.sm2_sign_update(c, Buf.of(msg), len(msg))
+                            out = Buf(72); ol = ctypes.c_size_t(0)
+                            if (seed + i) % 5 == 4:
+                                l.sm2_sign_finish_fixlen(c, 71, out)
+                            else:
+                                l.sm2_sign_finish(c, out, ctypes.byref(ol))
+                        else:
+                            pt = secrets["plaintext"]
+                            l.sm2_encrypt_update(c, Buf.of(pt), len(pt))
+                            out = Buf(400); ol = ctypes.c_size_t(0)
+                            l.sm2_encrypt_finish(c, key, out, ctypes.byref(ol))
+                    for i in range(min(sh.draws(), 6)):
+                        dr = sh.draw(i)
+                        if dr is not None and len(dr) == 32:
+                            secrets["nonce draw %d (limbs)" % i] = dr
+                            secrets["nonce draw %d" % i] = dr[::-1]
+                    ctx.note("long-lived-context-operations", reps)
                 elif op in ("sm2_decrypt", "sm2_decrypt_bad"):
                     pt = msg[:min(len(msg), 200)]
                     secrets["plaintext"] = pt
